@@ -490,6 +490,14 @@ class Discharger:
                     return (True, why)
                 return (False, 'header name may be empty here: ' + why)
             return (False, 'possibly empty header value is indexed')
+        # ---- a module-level table with an entry for either truth value,
+        # indexed by a test (isinstance / comparison / not)
+        if key[0] in ('isinstance', 'eq', 'ne', 'is', 'in', 'not') and \
+                cont[0] in ('global', 'c'):
+            tab = cont[1] if cont[0] == 'c' else self.m.try_fold(
+                ast.Name(id=cont[2], ctx=ast.Load()), cont[1])
+            if isinstance(tab, dict) and True in tab and False in tab:
+                return (True, 'table has an entry for True and for False')
         # ---- dictionaries
         if self._dictish(e, fi) or (op.exc == 'KeyError' and
                                     not T.is_int_const(key)):
@@ -775,6 +783,14 @@ class Discharger:
             if el is not None:
                 base = sum(1 for z in el if z[0] != 'splat')
                 adds = 0
+        elif term[0] == 'or' and isinstance(term[1], tuple) and term[1]:
+            # `a or b`: a where it is truthy (a sequence: at least one
+            # element), otherwise b
+            alts = term[1]
+            lens = [max(self.minlen(fi, p, i, a, depth + 1), 1)
+                    for a in alts[:-1]]
+            lens.append(self.minlen(fi, p, i, alts[-1], depth + 1))
+            base = min(lens)
         elif term[0] == 'concat':
             base = self.minlen(fi, p, i, term[1], depth + 1) + \
                 self.minlen(fi, p, i, term[2], depth + 1)
